@@ -406,6 +406,38 @@ func init() {
 					}
 				})
 			}
+			// SetSearchParams: the URL adopts (a copy of) another URL's list. Two live URLs (a clone or a resolution result),
+			// mutations and SetSearch on either, SetSearchParams in both directions; afterwards each URL and its own list must
+			// describe the same query, also through handles obtained earlier (c13Replay evaluates exactly that per step)
+			famHist(c, defaultCfg, 8000*c.Scale, 9, "cRppppqs", true, allButVerrs, "set-search-params", func(d *Driver, hc histCase, h *implHist, steps []Step, start Obs) {
+				c13Replay(c, hc)
+				c12Agree(c, hc)
+			})
+			{
+				starts := []string{"http://h/p?x=1&y=2", "sc://h/p", "mailto:a@b?s=1#f", "http://h/?a=%41&a=b", "file:///C:/x?"}
+				var jobs [][]Op
+				for _, pre := range [][]Op{{}, {{K: "T"}}, {{K: "a", A: "k", B: "v w"}}, {{K: "T", Slot: 1}}, {{K: "d", Slot: 1, A: "x"}}, {{K: "s", Slot: 1, W: 7, A: "?n=1&m=%32"}}, {{K: "s", W: 7, A: ""}}} {
+					for _, ad := range []Op{{K: "A"}, {K: "A", Slot: 1}} {
+						for _, post := range [][]Op{{}, {{K: "a", A: "z", B: "1"}}, {{K: "a", Slot: 1, A: "z", B: "1"}}, {{K: "t", A: "x", B: "9"}, {K: "q", Slot: 1, A: "x"}}, {{K: "s", W: 7, A: "q=1"}, {K: "q", A: "q"}}, {{K: "A", Slot: 1 - ad.Slot}}, {{K: "o"}, {K: "O", Slot: 1}}} {
+							for _, mk := range []Op{{K: "c"}, {K: "R", A: "?r=1&r=2"}, {K: "R", A: "other?"}} {
+								ops := append([]Op{mk}, pre...)
+								ops = append(ops, ad)
+								ops = append(ops, post...)
+								ops = append(ops, Op{K: "q", A: "x"}, Op{K: "q", Slot: 1, A: "x"})
+								jobs = append(jobs, ops)
+							}
+						}
+					}
+				}
+				c.Pool.Run(len(jobs)*len(starts), func(d *Driver, i int) {
+					st, ops := starts[i%len(starts)], jobs[i/len(starts)]
+					hc := histCase{defaultCfg, nil, st, ops, "set-search-params-edge", i}
+					if h, _, _ := c.cmpHist(d, defaultCfg, nil, st, ops, allButVerrs, "set-search-params-edge", i); h != nil {
+						c13Replay(c, hc)
+						c12Agree(c, hc)
+					}
+				})
+			}
 			// under the diagnostics options a setter may stop at a validation error: URL and list must agree then too
 			for _, n := range []string{"fail", "report", "fail+report", "singlePct+lax", "specialAdd", "skipEq", "collapse+skipDrive", "queryC+squeryA"} {
 				cfg := cfgFromDesc(n)
@@ -474,6 +506,21 @@ func c13Check(c *Ctx, hc histCase, steps []Step, start Obs) {
 					}
 				}
 			}
+		case "A": // X.SetSearchParams(Y.SearchParams()): Y changes only in that its parameter list now exists
+			other, pother, name := s.B, prevB, "B"
+			if o.Slot == 1 {
+				other, pother, name = s.A, prevA, "A"
+			}
+			if len(other) == nFields && len(pother) == nFields {
+				for i := 0; i < nFields-1; i++ {
+					if other[i] != pother[i] {
+						c.Report(Finding{Class: "violation", What: fmt.Sprintf("SetSearchParams changed the URL whose list it was given (%s, %s): %q -> %q", name, fieldNames[i], pother[i], other[i]), Case: hc.Case(k)})
+						break
+					}
+				}
+			} else if !same(other, pother) {
+				c.Report(Finding{Class: "violation", What: "SetSearchParams changed the other slot", Case: hc.Case(k)})
+			}
 		default: // operation on one slot: the other must not change
 			if o.Slot == 0 && !same(prevB, s.B) {
 				c.Report(Finding{Class: "violation", What: fmt.Sprintf("operation on A changed B (%s): %q -> %q", o.String(), prevB, s.B), Case: hc.Case(k)})
@@ -509,9 +556,13 @@ func c13Replay(c *Ctx, hc histCase) {
 		if x != nil && strings.Contains("adt", o.K) {
 			before = pairsNoUpdate(h.handle(o.Slot))
 		}
+		var given []string
+		if o.K == "A" && x != nil && h.u[1-o.Slot] != nil {
+			given = pairsNoUpdate(h.handle(1 - o.Slot))
+		}
 		h.step(o)
 		x = h.u[o.Slot]
-		if x == nil || !strings.Contains("adtoO", o.K) {
+		if x == nil || !strings.Contains("adtoOA", o.K) || (o.K == "A" && h.u[1-o.Slot] == nil) {
 			continue
 		}
 		sp := h.handle(o.Slot)
@@ -522,6 +573,13 @@ func c13Replay(c *Ctx, hc histCase) {
 			want := append(append([]string(nil), before...), o.A, o.B)
 			if strings.Join(after, "\x00") != strings.Join(want, "\x00") {
 				bad = fmt.Sprintf("the parameter list is %q, expected %q", after, want)
+			}
+		case "A":
+			if strings.Join(after, "\x00") != strings.Join(given, "\x00") {
+				bad = fmt.Sprintf("the parameter list is %q, the list it was given is %q", after, given)
+			}
+			if now := pairsNoUpdate(h.handle(1 - o.Slot)); strings.Join(now, "\x00") != strings.Join(given, "\x00") {
+				bad = fmt.Sprintf("the list of the other URL changed: %q -> %q", given, now)
 			}
 		case "d":
 			for j := 0; j+1 < len(after); j += 2 {
@@ -557,6 +615,74 @@ func c13Replay(c *Ctx, hc histCase) {
 		}
 		if hr := x.Href(true); ser != "" && !strings.HasSuffix(hr, "?"+ser) {
 			c.Report(Finding{Class: "violation", What: fmt.Sprintf("after %s the serialization %q of the operated-on value does not end with ?%s", o.String(), hr, ser), Case: hc.Case(k)})
+			return
+		}
+	}
+}
+
+// c12Agree re-executes a two-slot history and evaluates, after EVERY step and for BOTH live URLs, that the URL and the
+// handle obtained from it first describe the same query: the handle is still the URL's handle, and whenever the last
+// operation on that URL was a SearchParams mutation, SetSearchParams or SetSearch, Query() is the list's serialization
+// (resp. the list is the parse of the query).
+func c12Agree(c *Ctx, hc histCase) {
+	defer func() { recover() }()
+	var u *url.Url
+	var err error
+	if hc.base == nil {
+		u, err = hc.cfg.Parser.Parse(hc.input)
+	} else {
+		u, err = hc.cfg.Parser.ParseRef(*hc.base, hc.input)
+	}
+	if err != nil || u == nil {
+		return
+	}
+	h := &implHist{}
+	h.u[0] = u
+	var first [2]*url.SearchParams
+	for k, o := range hc.ops {
+		h.step(o)
+		for sl := 0; sl < 2; sl++ {
+			x := h.u[sl]
+			if x == nil || h.sp[sl] == nil {
+				first[sl] = nil
+				continue
+			}
+			if first[sl] == nil {
+				first[sl] = h.sp[sl]
+			}
+			if first[sl] != h.sp[sl] { // the slot holds a new URL value (clone / resolution result)
+				first[sl] = h.sp[sl]
+			}
+			if x.SearchParams() != first[sl] {
+				c.Report(Finding{Class: "violation", What: fmt.Sprintf("after %s the handle obtained earlier is no longer the URL's SearchParams (slot %d)", o.String(), sl), Case: hc.Case(k)})
+				return
+			}
+		}
+		wrote := o.Slot
+		if o.K == "R" || o.K == "c" || o.K == "r" || o.K == "q" || o.K == "T" {
+			continue
+		}
+		x := h.u[wrote]
+		if x == nil || (o.K == "A" && h.u[1-wrote] == nil) {
+			continue
+		}
+		sp := h.handle(wrote)
+		if o.K == "s" && o.W != 7 {
+			continue
+		}
+		if o.K == "s" {
+			want := formParse(x.Query())
+			if o.A == "" {
+				want = nil
+			}
+			if got := pairsNoUpdate(sp); strings.Join(got, "\x00") != strings.Join(want, "\x00") {
+				c.Report(Finding{Class: "violation", What: fmt.Sprintf("after %s the parameter list is %q, the form-urlencoded parse of the query %q is %q", o.String(), got, x.Query(), want), Case: hc.Case(k)})
+				return
+			}
+			continue
+		}
+		if ser := sp.String(); x.Query() != ser {
+			c.Report(Finding{Class: "violation", What: fmt.Sprintf("after %s Query()=%q but the URL's parameter list serializes to %q", o.String(), x.Query(), ser), Case: hc.Case(k)})
 			return
 		}
 	}
